@@ -107,3 +107,19 @@ Proof. intros ND. split; [exact ND|]. intros k. cbn [gmap_keys]. tauto. Qed.
 
 Lemma beqb_eq' a b : beqb a b = true <-> a = b.
 Proof. apply beqb_eq. Qed.
+
+(* ---------- v, ok := m[k] ---------- *)
+Lemma gmap_find_some_get {K V} (eqb : K -> K -> bool) (m : gmap K V) k d v :
+  gmap_find eqb m k = Some v -> gmap_get eqb m k d = v.
+Proof. destruct m as [l|]; cbn [gmap_find gmap_get]; [|discriminate]. intros ->. reflexivity. Qed.
+
+Lemma gmap_find_none_iff {K V} (eqb : K -> K -> bool) (eqb_eq : forall a b, eqb a b = true <-> a = b) (m : gmap K V) k :
+  gmap_find eqb m k = None <-> ~ In k (gmap_keys m).
+Proof.
+  destruct m as [l|]; cbn [gmap_find gmap_keys]; [|split; [intros _ H; exact H|reflexivity]].
+  induction l as [|[k0 v0] r IH]; cbn [alist_get map fst In]; [tauto|].
+  destruct (eqb k0 k) eqn:E.
+  - apply eqb_eq in E. subst. split; [discriminate|]. intros H. exfalso. apply H. left. reflexivity.
+  - rewrite IH. split; [|tauto]. intros H [H1|H1]; [|tauto]. subst.
+    assert (eqb k k = true) by (apply eqb_eq; reflexivity). congruence.
+Qed.
